@@ -7,6 +7,7 @@ CONSTANTS
     Level = "thorough"
     FixAssoc = TRUE
     FixTplLast = TRUE
+    FixRollback = TRUE
     Known = {"rename-both-ids", "template-update-partial"}
 INVARIANTS
     TypeOK
@@ -16,5 +17,6 @@ INVARIANTS
     RestartRestoresExecuting
     NoOrphanAssociation
     TemplateAllOrNone
+    DerivedFromScript
     CrashAtomicOrKnown
 CHECK_DEADLOCK FALSE
